@@ -230,6 +230,19 @@ func c08OwnSpecs(quick bool) []*wSpec {
 	}
 	sfx := map[bool]string{true: "-q", false: ""}[quick]
 	return []*wSpec{{Prop: "C08", Name: "C08-3w2m" + sfx, Cfg: cfg, Init: init, Setup: c08Setup, Menu: c08Menu, Depth: d, NoInvariants: true},
+		// the first swap / melt request of the next operation is lost on the wire (whatever the wallet sends then — a
+		// retry, a recovery request — is inspected like everything else)
+		{Prop: "C08", Name: "C08-lost-request" + sfx, Cfg: cfg, Init: []string{"mint|0|16", "mint|1|16", "send|1|5|0"}, Setup: c08Setup, Menu: func(w *wworld.World) []string {
+			var ops []string
+			if len(w.R.FailNext) == 0 || (w.R.FailNext["/v1/swap"] == 0 && w.R.FailNext["/v1/melt/bolt11"] == 0) {
+				ops = append(ops, "netfail|/v1/swap", "netfail|/v1/melt/bolt11")
+			}
+			return append(ops, "send|0|3|0", "send|0|3|1", "recv|0|0|0", "melt|0|4|S", "sendpk|0|1|2", "htlc|0|2", "reclaim|1")
+		}, Depth: 2, NoInvariants: true},
+		// a wallet made of many small coins: requests with far more inputs than usual
+		{Prop: "C08", Name: "C08-many-inputs" + sfx, Cfg: wworld.Config{FeeA: 0, Wallets: []wworld.WalletCfg{{Default: "a"}, {Default: "a"}}}, Init: c08ManySmall(40), Setup: c08Setup, Menu: func(w *wworld.World) []string {
+			return []string{"melt|0|34|S", "melt|0|36|P", "send|0|35|1", "send|0|38|0"}
+		}, Depth: 1, NoInvariants: true},
 		{Prop: "C08", Name: "C08-crossmint-p2pk" + sfx, Cfg: crossMintCfg, Init: []string{"mint|2|16", "mint|0|8"}, Setup: c08Setup, Menu: crossMintP2PKMenu, Depth: d + 1, NoInvariants: true}}
 }
 
@@ -248,4 +261,12 @@ func init() {
 
 func c08Specs(quick bool) []*wSpec {
 	return append(c08OwnSpecs(quick), wUnionSpec("C08", quick, c08Setup, nil, true))
+}
+
+func c08ManySmall(n int) []string {
+	var ops []string
+	for i := 0; i < n; i++ {
+		ops = append(ops, "mint|0|1")
+	}
+	return ops
 }
